@@ -39,7 +39,7 @@ CodeR == 114   \* "r"
 VARIABLES req, pc, text, klass, choice, tbl, failed
 vars == <<req, pc, text, klass, choice, tbl, failed>>
 
-Settings == {"standard", "rhombohedral"}
+Settings == {"standard", "rhombohedral", "hexagonal"}      \* "hexagonal" is what the R-centred tables report as their own cell_choice
 
 Requests ==
        {[kind |-> "table", i |-> i] : i \in 1..Len(Tables)}
